@@ -38,11 +38,14 @@ TraceNext ==
 TraceSpec == TraceInit /\ [][TraceNext]_tvars
 
 \* ---- acceptance ------------------------------------------------------------
+\* `scan` runs use an error-level rule: the exit status is 1 exactly when the model's tally of the sends is positive
+TallyReasons == IF Cfg.front = "scan" /\ l = Len(Events) + 1 /\ ((acc.total > 0) # (Cfg.exit = 1))
+                THEN {"exit-status-tally"} ELSE {}
 OutcomeReasons == OutcomeReasonsOf(Cfg)
 
 \* printed when the last event has been consumed (or from the postcondition when the trace was rejected)
 Accepted == (l = Len(Events) + 1) =>
-               PrintT(<<"ACCEPTED", Cfg.id, Len(Events), consumerDone, OutcomeReasons>>)
+               PrintT(<<"ACCEPTED", Cfg.id, Len(Events), consumerDone, OutcomeReasons \cup TallyReasons>>)
 Post == IF TLCGet("stats").diameter - 1 = Len(Events) THEN TRUE
         ELSE PrintT(<<"REJECTED", Cfg.id, TLCGet("stats").diameter - 1, Len(Events), OutcomeReasons>>)
 =============================================================================
